@@ -173,7 +173,8 @@ impl CompositeGlyph {
 
         for (component, bbox) in source {
             components.push(component);
-            union_box.get_or_insert(bbox).union(bbox);
+            let union_box = union_box.get_or_insert(bbox);
+            *union_box = union_box.union(bbox);
         }
 
         if components.is_empty() {
